@@ -623,10 +623,29 @@ type genJournal struct {
 	MinDay string
 }
 
-var c19Accounts = []string{"Assets:Bank", "Assets:Portfolio", "Assets:Cash:Wallet", "Liabilities:Card", "Expenses:Food", "Expenses:Rent:Flat", "Income:Salary", "Equity:Equity"}
+var c19Accounts = []string{"Assets:Bank", "Assets:Portfolio", "Assets:Cash:Wallet", "Liabilities:Card", "Expenses:Food", "Expenses:Rent:Flat", "Income:Salary", "Equity:Equity", "Assets:Accrued", "Expenses:Insurance"}
 
 func c19Date(d int) string {
 	return time.Date(2020, 1, 1, 0, 0, 0, 0, time.UTC).AddDate(0, 0, d).Format("2006-01-02")
+}
+
+// c19PeriodEnds lists the days (offsets from 2020-01-01) on which the periods of an accrual window [from, to] end:
+// every day, Sundays, or month ends, and always the last day of the window.
+func c19PeriodEnds(iv string, from, to int) []int {
+	base := time.Date(2020, 1, 1, 0, 0, 0, 0, time.UTC)
+	var res []int
+	for x := from; x <= to; x++ {
+		t := base.AddDate(0, 0, x)
+		switch {
+		case x == to, iv == "daily":
+			res = append(res, x)
+		case iv == "weekly" && t.Weekday() == time.Sunday:
+			res = append(res, x)
+		case iv == "monthly" && t.AddDate(0, 0, 1).Day() == 1:
+			res = append(res, x)
+		}
+	}
+	return res
 }
 
 func genProcJournal(r *RNG, fault string) genJournal {
@@ -667,7 +686,22 @@ func genProcJournal(r *RNG, fault string) genJournal {
 	usedBBB := false
 	for i, d := range txDays {
 		var t string
-		switch r.Intn(6) {
+		switch r.Intn(7) {
+		case 6:
+			// an accrued expense in a priced commodity: the instalments are dated on later days, on which the price may have
+			// changed (seeds C01-c / C19-d shared the posting objects of the instalments between days: Valuate writes the value
+			// of a later day into a posting an earlier day's stage still reads)
+			amt := r.Range(3, 400)
+			iv := Pick(r, []string{"daily", "weekly", "monthly"})
+			end := d + r.Range(3, 90)
+			t = fmt.Sprintf("@accrue %s %s %s Assets:Accrued\n%s \"insurance %d\"\nAssets:Portfolio Expenses:Insurance %d AAA\n", iv, c19Date(d), c19Date(end), c19Date(d), i, amt)
+			for _, pe := range c19PeriodEnds(iv, d, end) {
+				ndays[pe] = true // the instalments are dated at the period ends
+			}
+			for k := r.Range(1, 4); k > 0; k-- {
+				pd := r.Range(d, end)
+				lines = append(lines, line{pd, fmt.Sprintf("%s price AAA %d.%02d CHF\n", c19Date(pd), r.Range(5, 200), r.Intn(100))})
+			}
 		case 0:
 			amt := r.Range(1, 5000)
 			bank += amt
